@@ -63,7 +63,7 @@ func init() {
 	reg("C10", ruleAborts(ndjsonCommonFiles, "P4j", 1), ruleSameNodeRecursionDiscriminated, ruleNilableFieldsBeforeAbortingDefault, ruleNilReachesNoAbortingDefault, ruleNoUncheckedAssertionsInFrontEnd, ruleYamlDecodedStrictly, ruleSinksOnlyGrow, rulePassOrder, rulePairAccess, ruleConstIndex(frontEndNoEvolution, "P2", 30), ruleMakeBounds, ruleErrorProvenance, ruleBreakInSwitchInLoop, rulePositions, ruleNodeLiteralsPositioned, ruleBigIndex, ruleAborts(frontEndNoEvolution, "P4", 25), ruleDecodeLoopLeavesOnError, ruleContextLiteralsComplete, ruleDecodeIntoPointerPointer, ruleNullTypeOnlyInUnions, ruleOptionalDeref(func(f string) bool { return frontEndNoEvolution(f) || evolutionFiles(f) }, "NP1", 33),
 		ruleE3(frontScope, "E3"), ruleCollectPackages, ruleBinaryOperatorTokens, ruleReflectiveWalkTerminates)
 	reg("C20", ruleEveryReturnedDirectoryIsWatched, ruleWhoMayWrite, ruleWriteIfNeeded, ruleWatchSetUnchangedOnFailure, ruleWatchStartsBeforeGeneratingAndAlwaysGenerates, ruleNoRunTimeGlobals, ruleWatchSerialised, ruleWatchRecovers, ruleChdirRestored, ruleWatchEveryEventSchedules, ruleWatchSurvivesErrors, ruleWatchInputsNotMutated)
-	reg("C18", ruleDependenciesFirst, ruleMemoKeysAgree, ruleCollectPackages, ruleTemporaryCwdPathsAbsolute, ruleNamespaceFlattening, ruleAllModelsValidated, ruleNoSelfComparison(frontEndFile, "E6", 1), ruleLookedUpMapsAreFilled(frontEndFile, "D1", 15), ruleE2(frontScope, "E2"), ruleE5(frontScope, "E5"))
+	reg("C18", ruleDepthTestBeforeMemoLookup, ruleDependenciesFirst, ruleMemoKeysAgree, ruleCollectPackages, ruleTemporaryCwdPathsAbsolute, ruleNamespaceFlattening, ruleAllModelsValidated, ruleNoSelfComparison(frontEndFile, "E6", 1), ruleLookedUpMapsAreFilled(frontEndFile, "D1", 15), ruleE2(frontScope, "E2"), ruleE5(frontScope, "E5"))
 	reg("C11", ruleAborts(ndjsonCommonFiles, "P4j", 1), ruleContextPositionTests, ruleSinksSharedAndVerdictsUsed, ruleYamlDecodedStrictly, ruleWrapperRecursion, ruleSinksOnlyGrow, ruleParseCachePerPackage, ruleValidateBeforeWrite, ruleWhoMayWrite, ruleAllModelsValidated, rulePassesWalkWholeEnvironment, ruleLookedUpMapsAreFilled(frontEndFile, "D1", 15), ruleNoSelfComparison(frontEndFile, "E6", 1), ruleE1(inMod, "E1"), ruleE2(inMod, "E2"), ruleE5(inMod, "E5"))
 	reg("C09", ruleResultsOfPureFunctionsUsed, ruleDefinitionsKeyedByIdentity, ruleShadowedVariableIsRead, rulePointersToScalarsComparedByValue, ruleSinksSharedAndVerdictsUsed, ruleIntegerBoundsMatchBaseType, ruleSymbolTableWritesScoped, ruleArithmeticOnNumbersOnly, ruleSinksOnlyGrow, ruleParseCachePerPackage, rulePassOrder, ruleVisitorCoverage("VisitorWithContext.VisitChildren", "V1", "V2", 30), ruleVisitorCoverage("defaultRewriteImpl", "V3", "V4", 30), ruleAllModelsValidated, ruleFilesAreCombined, ruleLookedUpMapsAreFilled(frontEndFile, "D1", 15), ruleNoSelfComparison(frontEndFile, "E6", 1), rulePassesWalkWholeEnvironment, ruleArityCheckedBeforeResolution, rulePrunes(dslValidationFiles, "V5", 20), ruleContextPositionTests,
 		ruleE1(frontScope, "E1"), ruleE2(frontScope, "E2"), ruleE5(frontScope, "E5"))
